@@ -31,6 +31,8 @@ theorem fromV3FormTable_is_code : KinModel.Gen.fromV3FormTable = fromV3FormTable
 theorem fromV3FileTable_is_code : KinModel.Gen.fromV3FileTable = fromV3FileTable := by decide
 theorem toV3FlowTable_is_code : KinModel.Gen.toV3FlowTable = toV3FlowTable := by decide
 theorem fromV3SecTable_is_code : KinModel.Gen.fromV3SecTable = fromV3SecTable := by decide
+theorem toV3OpTable_is_code : KinModel.Gen.toV3OpTable = toV3OpTable := by decide
+theorem fromV3OpTable_is_code : KinModel.Gen.fromV3OpTable = fromV3OpTable := by decide
 
 /-- **copies_complete**: at every site every constraint field of that site (and type / format / required where
     the site copies them itself) is copied from the field of the same name -/
@@ -41,7 +43,9 @@ theorem copies_complete :
     Complete ("type" :: "format" :: "items" :: paramConstraintFields) KinModel.Gen.fromV3ParamTable = true ∧
     Complete paramConstraintFields KinModel.Gen.toV3FormTable = true ∧
     Complete paramConstraintFields KinModel.Gen.fromV3FormTable = true ∧
-    Complete ["authorizationUrl", "tokenUrl"] KinModel.Gen.toV3FlowTable = true := by decide
+    Complete ["authorizationUrl", "tokenUrl"] KinModel.Gen.toV3FlowTable = true ∧
+    Complete ("operationId" :: opMetaFields) KinModel.Gen.toV3OpTable = true ∧
+    Complete ("operationId" :: opMetaFields) KinModel.Gen.fromV3OpTable = true := by decide
 
 /-- the way back copies, per OAuth2 flow, the URLs that flow uses (and names the flow) -/
 theorem copies_complete_flows :
@@ -60,6 +64,13 @@ theorem copies_missing_rows :
 theorem schemaAssigned_is_code :
     KinModel.Gen.toV3SchemaAssigned = toV3SchemaAssigned ∧
     KinModel.Gen.fromV3SchemaAssigned = fromV3SchemaAssigned := by decide
+
+/-- the operation fields set by statements after the literal: the security requirements are assigned in both
+    directions (next to parameters / request body or consumes / responses) -/
+theorem opAssigned_is_code :
+    KinModel.Gen.toV3OpAssigned = toV3OpAssigned ∧ KinModel.Gen.fromV3OpAssigned = fromV3OpAssigned ∧
+    KinModel.Gen.toV3OpAssigned.contains "security" = true ∧ KinModel.Gen.fromV3OpAssigned.contains "security" = true := by
+  decide
 
 theorem discriminator_assigned_both_ways :
     KinModel.Gen.toV3SchemaAssigned.contains "discriminator" = true ∧
@@ -703,15 +714,13 @@ theorem toV3Path_simple {V : Type} (dc : List String) (p : Path2 V) (h : pathSim
     mapRes_ok _ _ _ (fun q hq => by simp [pathParam3, toV3P_simple dc q (List.all_eq_true.mp h.1 q hq)])
   simp [toV3Path, h1, h2, toV3PathS]
 
-/-- every operation of the simple fragment: **same path, method, operation id, parameters, responses** -/
+/-- every operation of the simple fragment: **same path, method, operation id, parameters, responses**, and the
+    same summary / description / deprecated / tags and security requirements -/
 theorem opA_simple {V : Type} (path : String) (o : Op2 V) (h : opSimple o = true) :
-    ({ path := path, method := (toV3OpS o).method, opId := (toV3OpS o).opId,
-       inputs := (toV3OpS o).params.map paramA3 ++ (match (toV3OpS o).body with | none => [] | some b => bodyA3 b),
-       responses := (toV3OpS o).responses.map (fun kr => (kr.1, respA3 kr.2)) } : OpA V) =
-    { path := path, method := o.method, opId := o.opId, inputs := o.params.map inputA2,
-      responses := o.responses.map (fun kr => (kr.1, respA2 kr.2)) } := by
+    opA3 path (toV3OpS o) = opA2 path o := by
   simp only [opSimple, Bool.and_eq_true] at h
-  simp only [toV3OpS, List.append_nil, inputs_simple o.params h.1, responses_simple o.produces o.responses h.2]
+  simp only [opA3, opA2, toV3OpS, List.append_nil, inputs_simple o.params h.1,
+    responses_simple o.produces o.responses h.2, meta_toV3]
 
 theorem mapSecs_preserves (l : List (String × Sec2)) (h : l.all (fun ks => secInFragment ks.2) = true) :
     ∃ l', mapSecs l = .ok l' ∧
@@ -764,13 +773,8 @@ theorem mergeSchemas_nodup {V : Type} (defs : List (String × Sch V)) (acc : Lis
         · simp [alookup, hk]
 
 theorem ops_simple {V : Type} (paths : List (Path2 V)) (h : paths.all pathSimple = true) :
-    (paths.map toV3PathS).flatMap (fun p => p.ops.map (fun o =>
-      ({ path := p.path, method := o.method, opId := o.opId,
-         inputs := o.params.map paramA3 ++ (match o.body with | none => [] | some b => bodyA3 b),
-         responses := o.responses.map (fun kr => (kr.1, respA3 kr.2)) } : OpA V))) =
-    paths.flatMap (fun p => p.ops.map (fun o =>
-      ({ path := p.path, method := o.method, opId := o.opId, inputs := o.params.map inputA2,
-         responses := o.responses.map (fun kr => (kr.1, respA2 kr.2)) } : OpA V))) := by
+    (paths.map toV3PathS).flatMap (fun p => p.ops.map (opA3 p.path)) =
+    paths.flatMap (fun p => p.ops.map (opA2 p.path)) := by
   induction paths with
   | nil => rfl
   | cons p rest ih =>
@@ -840,7 +844,7 @@ theorem toV3Raw_simple {V : Type} (d : Doc2 V) (h : docSimple d = true) (secs : 
     toV3Raw d = .ok { servers := toV3Servers d.loc, cparams := d.params.map (fun kp => (kp.1, toV3PS kp.2)), cbodies := [],
                       cschemas := d.defs.map (fun ks => (ks.1, ({ formName := none, schema := toV3S ks.2 } : CSchema V))),
                       cresponses := d.responses.map (fun kr => (kr.1, toV3Resp d.produces kr.2)), secs := secs,
-                      paths := d.paths.map toV3PathS } := by
+                      paths := d.paths.map toV3PathS, security := d.security } := by
   simp only [docSimple, Bool.and_eq_true] at h
   obtain ⟨⟨⟨⟨⟨⟨hparams, hpaths⟩, hresps⟩, hnodup⟩, hdefs⟩, hsecs⟩, hloc⟩ := h
   have hp : mapRes (toV3Path { cbodies := [], cschemas := [] } d.consumes) d.paths = .ok (d.paths.map toV3PathS) :=
@@ -903,6 +907,7 @@ theorem api3_toV3_simple {V : Type} (d : Doc2 V) (h : docSimple d = true) :
     · exact hdefs' d.defs hdefs
     · exact hserv
     · exact hsecs2
+    · rfl
 
 /-- non-vacuity of `api3_toV3_simple`: a document with a path parameter, a constrained array query parameter,
     a response with headers but no schema, a shared response, two definitions (one referring to the other,
